@@ -343,10 +343,11 @@ def _set_items(bs_children, b, open_end: int | None) -> tuple[list, list]:
             continue
         if not lead and prev_end is not None:
             blank = b[prev_end:c.start_byte].count(b"\n") >= 2
+        lblank = bool(lead) and prev_end is not None and b[prev_end:c.start_byte].count(b"\n") >= 2
         if c.type == "binding":
             ap = c.child_by_field_name("attrpath") or next(x for x in c.children if x.type == "attrpath")
             vn = c.child_by_field_name("expression") or [x for x in c.named_children if x.type not in ("attrpath", "comment")][-1]
-            it = {"k": "b", "ap": _attr_names(ap, b), "val": _val(vn, b), "lead": lead, "eol": "", "blank": blank}
+            it = {"k": "b", "ap": _attr_names(ap, b), "val": _val(vn, b), "lead": lead, "eol": "", "blank": blank, "lblank": lblank}
             inner = [comment_key(_text(x, b)) for x in c.children if x.type == "comment"]
             if inner:
                 it["inner"] = inner
@@ -359,7 +360,7 @@ def _set_items(bs_children, b, open_end: int | None) -> tuple[list, list]:
                         names.append(_text(y, b) if y.type == "identifier" else nix_decode(_text(y, b)[1:-1]))
                 elif x.type != "comment":
                     src = _tok_text(x, b)
-            it = {"k": "i", "src": src, "names": names, "lead": lead, "eol": "", "blank": blank}
+            it = {"k": "i", "src": src, "names": names, "lead": lead, "eol": "", "blank": blank, "lblank": lblank}
         its.append(it)
         lead = []
         blank = False
